@@ -462,7 +462,8 @@ class ImplRun:
             return g.add_hook(self.hooks[h[1]])
         if op == "remove_hook":
             if c[1] in self.hooks:
-                return g.remove_hook(self.hooks[c[1]])
+                # forget the function object: a later add_hook with this id registers the NEW specification, as in the model
+                return g.remove_hook(self.hooks.pop(c[1]))
             return None
         raise ValueError(c)
 
